@@ -9,7 +9,11 @@
    (2) the connection / builder bookkeeping relevant to flush / compile /
        instantiate / commit_subroutine: pending commands, arrays to declare and
        return, registers to return, the array address counter, the held compiled
-       subroutine and the subroutines sent so far.  The model follows the repaired
+       subroutine and the subroutines sent so far.  The held subroutine is a VALUE:
+       every compile() builds a fresh subroutine from the pending commands, so
+       instantiating one round never shows in a later round (the real code must not
+       alias compiled Subroutine objects, which instantiate() rewrites in place).
+       The model follows the repaired
        code: compile() resets the bookkeeping exactly like a flush
        (`compile_noreset` is the old behaviour, kept for the regression example).
    No proofs here (Proofs/ConnProofs.v). *)
@@ -188,12 +192,35 @@ Fixpoint views_eqb (a b : list (list nat * list nat * list nat)) : bool :=
 (* a generated history: the subroutines the real controller received must show the
    same declared / returned arrays and returned registers, and the connection must be
    left with the same number of pending arrays / registers *)
+(* numerators of the rotations of a sent subroutine (a Template that was never filled
+   shows as -1, an assembly failure as [-2]) *)
+Definition rot_nums (s : sub) : list Z :=
+  match s_body s with
+  | None => [-2]
+  | Some b => flat_map (fun c => if String.prefix "rot_" (fst c)
+                                 then match snd c with
+                                      | [_; OInt n; _] => [n]
+                                      | _ => [-1] end
+                                 else []) b
+  end.
+Fixpoint zs_eqb (a b : list Z) : bool :=
+  match a, b with
+  | [], [] => true
+  | x :: a', y :: b' => (x =? y) && zs_eqb a' b'
+  | _, _ => false
+  end.
+Fixpoint zss_eqb (a b : list (list Z)) : bool :=
+  match a, b with
+  | [], [] => true
+  | x :: a', y :: b' => zs_eqb x y && zss_eqb a' b'
+  | _, _ => false
+  end.
 Record ccase := mkC { cc_ops : list sop; cc_views : list (list nat * list nat * list nat);
-                      cc_arrs_left : list nat; cc_regs_left : list nat }.
+                      cc_arrs_left : list nat; cc_regs_left : list nat; cc_rots : list (list Z) }.
 Definition check_ccase (ex : exempt_t) (k : ccase) : bool :=
   let c := run_ops ex conn0 (cc_ops k) in
   views_eqb (map sub_view (sent c)) (cc_views k) && nats_eqb (arrs_ret c) (cc_arrs_left k)
-  && nats_eqb (regs_ret c) (cc_regs_left k).
+  && nats_eqb (regs_ret c) (cc_regs_left k) && zss_eqb (map rot_nums (sent c)) (cc_rots k).
 Fixpoint failing {A} (chk : A -> bool) (l : list A) (i : Z) : list Z :=
   match l with
   | [] => []
